@@ -43,6 +43,16 @@ func NewHMACAuth(secrets [][]byte) *HMACAuth {
 	return a
 }
 
+// InheritReplayState makes a share the replay-protection state (the nonces
+// already seen) of prev, so that rebuilding an authenticator on a config
+// reload does not forget nonces that are still inside their tolerance window.
+func (a *HMACAuth) InheritReplayState(prev *HMACAuth) {
+	if a == nil || prev == nil || prev.nonce == nil {
+		return
+	}
+	a.nonce = prev.nonce
+}
+
 // Verify checks:
 // - timestamp header is present and within tolerance
 // - nonce header is present and not reused within tolerance window
